@@ -76,7 +76,10 @@ pub fn canon_path(p: &[u8]) -> CanonPath {
 }
 
 pub fn canon_ref(t: &[u8]) -> CanonRef {
-	let p = syntax::split(t);
+	canon_parts(syntax::split(t))
+}
+
+pub fn canon_parts(p: syntax::Parts) -> CanonRef {
 	CanonRef {
 		scheme: p.scheme,
 		authority: p.authority.map(|a| canon_authority(&a)),
